@@ -14,8 +14,10 @@ type RWMutex struct {
 	w     bool
 	r     int
 	owner int
-	vc    []int // clock released by the last writer (Unlock)
-	rvc   []int // join of the clocks released by readers since then (RUnlock): ordered before the NEXT WRITER only
+	// announced: a writer has called Lock (it holds the lock or waits for the readers to leave)
+	announced bool
+	vc        []int // clock released by the last writer (Unlock)
+	rvc       []int // join of the clocks released by readers since then (RUnlock): ordered before the NEXT WRITER only
 }
 
 // Mutex replaces sync.Mutex.
@@ -28,6 +30,8 @@ func (m *RWMutex) Lock() {
 		return
 	}
 	s.muID(m)
+	s.point(&pendingOp{kind: opLockCall, label: "Lock-call", mu: m})
+	m.announced = true
 	s.point(&pendingOp{kind: opLock, label: "Lock", mu: m})
 	m.w, m.owner = true, s.running.id
 	s.acquire(m.vc)
@@ -42,10 +46,10 @@ func (m *RWMutex) TryLock() bool {
 	}
 	s.muID(m)
 	s.point(&pendingOp{kind: opPoint, label: "TryLock", mu: m})
-	if m.w || m.r > 0 {
+	if m.w || m.announced || m.r > 0 {
 		return false
 	}
-	m.w, m.owner = true, s.running.id
+	m.w, m.announced, m.owner = true, true, s.running.id
 	s.acquire(m.vc)
 	s.acquire(m.rvc)
 	return true
@@ -59,7 +63,7 @@ func (m *RWMutex) TryRLock() bool {
 	}
 	s.muID(m)
 	s.point(&pendingOp{kind: opPoint, label: "TryRLock", mu: m})
-	if m.w {
+	if m.w || m.announced {
 		return false
 	}
 	m.r++
@@ -72,7 +76,7 @@ func (m *RWMutex) Unlock() {
 		m.real.Unlock()
 		return
 	}
-	m.w, m.owner = false, -1
+	m.w, m.announced, m.owner = false, false, -1
 	if s := active.Load(); s != nil && s.running != nil {
 		m.vc = s.release()
 		m.rvc = nil
